@@ -28,12 +28,53 @@ def run_grid(chk, tier):
                     continue
                 out.write(json.dumps({"id": d["id"], "suite": "grid", "prog": d["prog"], "negative": True, "twin": True,
                                       "exp": {"status": "rejected", "v": {"k": "void"}, "log": []}}) + "\n")
+        for c in boundary_arith_cases():
+            out.write(json.dumps(c) + "\n")
     events = os.path.join(work, "events.ndjson")
     rc, txt = C.run_vh(["lang", cases, events], timeout=3000)
     r = json.loads(txt)
     r["events_path"] = events
     r["suite"] = "grid"
     return r
+
+
+def boundary_arith_cases():
+    """Integer operators on operands at the edges of the 64-bit range (results that wrap, 3 ** 41, 2 ** 64, MAX * MAX,
+    shifts by 63 ...), with hidden operands: as an expression at top level, as the result of a function declared to
+    return int, and as a compound assignment to a `mut int` cell.  The values are outside the exact range of Lang.tla,
+    so no result is predicted here (C08 decides the values on limbs); what is judged is every recorded event: the
+    result, the function result and the cell content must be ints (Trace_Sound), and nothing may panic."""
+    MAX = 2 ** 63 - 1
+    lit = lambda n: {"k": "lit", "v": {"k": "int", "v": n}}
+    hide = lambda n: {"k": "hide", "ty": {"k": "int"}, "e": lit(n)}
+    var = lambda n: {"k": "var", "n": n}
+    INT = {"k": "int"}
+    pairs = [(3, 41), (10, 19), (2, 64), (2, 63), (-2, 63), (-2, 64), (MAX, 2), (MAX, MAX), (-MAX, MAX), (MAX, 1), (-MAX, -1),
+             (-MAX, 2), (2 ** 62, 2), (2 ** 62, 4), (3037000500, 3037000500), (1, 63), (-1, 63), (MAX, 63), (7, 0), (0, 7),
+             (-MAX, 3), (123456789012, 987654321098), (2 ** 32, 2 ** 32), (2 ** 31, 2), (-7, 2), (7, -2)]
+    ops = ["+", "-", "*", "/", "%", "**", "<<", ">>", "&", "|", "^"]
+    out = []
+    for op in ops:
+        for (a, b) in pairs:
+            if op in ("<<", ">>") and not 0 <= b <= 63:
+                continue
+            if op == "**" and b < 0:
+                continue
+            e = {"k": "bin", "op": op, "l": hide(a), "r": hide(b)}
+            progs = {
+                "top": [{"k": "set", "n": "r", "e": e}, var("r")],
+                "fn": [{"k": "fndecl", "n": "g", "ps": [{"n": "a", "ty": INT}, {"n": "b", "ty": INT}], "r": INT,
+                        "body": [{"k": "ret", "e": {"k": "bin", "op": op, "l": var("a"), "r": var("b")}}]},
+                       {"k": "set", "n": "r", "e": {"k": "call", "f": var("g"), "args": [hide(a), hide(b)]}},
+                       {"k": "arr", "es": [var("r"), lit(0)]}],
+                "asg": [{"k": "set", "n": "c", "e": {"k": "mut", "ty": INT, "e": hide(a)}},
+                        {"k": "set", "n": "y", "e": {"k": "asg", "op": op + "=", "l": var("c"), "r": hide(b)}},
+                        {"k": "tup", "es": [var("y"), {"k": "deref", "e": var("c")}]}],
+            }
+            for form, prog in progs.items():
+                out.append({"id": "arith-boundary-%s-%d,%d-%s" % (op, a, b, form), "suite": "grid", "prog": prog, "negative": True,
+                            "twin": True, "exp": {"status": "rejected", "v": {"k": "void"}, "log": []}})
+    return out
 
 
 def run_sound(prop, tier, rule, assumptions):
